@@ -227,14 +227,17 @@ def create_equation_from_terms(terms):
     """
     if len(terms) == 0:
         return ''
-    for i in range(0, len(terms)):
-        term = terms[i].strip()
+    # Work on a new list: the caller's list is not modified.
+    signed_terms = []
+    for term in terms:
+        term = term.strip()
         if not term[0] in ('+', '-'):
             term = '+' + term
-        terms[i] = term
-    if terms[0][0] == '+':
-        terms[0] = terms[0].replace('+', '')
-    eqn = ''.join(terms)
+        signed_terms.append(term)
+    if signed_terms[0][0] == '+':
+        # Only the leading sign is dropped (not a '+' inside the term).
+        signed_terms[0] = signed_terms[0][1:]
+    eqn = ''.join(signed_terms)
     return eqn
 
 
